@@ -19,17 +19,18 @@ META = {
                         'result shape / dims / coords / attrs / backend',
                'thorough': 'the full product and two consecutive calls on the same inputs'},
     'stubs': ['view / copy semantics of the numpy shim (astype copies unless copy=False with equal dtype, ravel/reshape alias when contiguous, flatten copies, slicing views), validated by replay'],
-    'outside': ['aliasing that only exists in compiled code (numba array reflection)', 'CuPy', 'viewshed (dtype widening; covered by C05 replay only)', 'polygonize'],
+    'outside': ['generate_terrain (builds its coordinates with datashader.Canvas, which is not shimmed; its kernel copies the template with `data * 0`)', 'aliasing that only exists in compiled code (numba array reflection)', 'CuPy', 'viewshed (dtype widening; covered by C05 replay only)', 'polygonize'],
     'assumptions': [],
     'budget_s': {'quick': 240, 'thorough': 1800},
 }
 
 WINDOW = {'slope', 'aspect', 'curvature', 'hillshade', 'mean0', 'mean1', 'apply', 'hotspots', 'convolution_2d'}
-DASK_OK = {'slope', 'aspect', 'curvature', 'hillshade', 'mean1', 'apply', 'hotspots', 'convolution_2d', 'binary', 'reclassify', 'equal_interval', 'ndvi', 'evi', 'proximity'}
+DASK_OK = {'perlin', 'generate_terrain', 'slope', 'aspect', 'curvature', 'hillshade', 'mean1', 'apply', 'hotspots', 'convolution_2d', 'binary', 'reclassify', 'equal_interval', 'ndvi', 'evi', 'proximity'}
 FUNCS = ['slope', 'aspect', 'curvature', 'hillshade', 'mean0', 'mean1', 'apply', 'hotspots', 'convolution_2d', 'binary', 'reclassify', 'quantile', 'equal_interval',
-         'natural_breaks', 'ndvi', 'evi', 'savi', 'proximity', 'allocation', 'direction', 'regions', 'a_star_search', 'stats', 'crosstab', 'trim', 'crop']
+         'natural_breaks', 'ndvi', 'evi', 'savi', 'proximity', 'allocation', 'direction', 'regions', 'a_star_search', 'stats', 'crosstab', 'trim', 'crop', 'perlin']
+GENERATORS = {'perlin', 'generate_terrain'}
 VIEW_OK = {'trim', 'crop'}           # documented: windows (views) of the input
-OWN_SHAPE = {'stats', 'crosstab', 'trim', 'crop'}
+OWN_SHAPE = {'stats', 'crosstab', 'trim', 'crop', 'perlin', 'generate_terrain'}     # generators: the raster argument is a template, identity of coords is not claimed
 TWO_INPUT = {'ndvi', 'savi', 'stats', 'crosstab', 'crop'}
 THREE_INPUT = {'evi'}
 FORKY = {'reclassify', 'ndvi', 'binary', 'quantile', 'natural_breaks', 'equal_interval', 'stats', 'crosstab', 'regions', 'a_star_search', 'proximity', 'allocation', 'direction', 'trim', 'crop', 'mean1', 'mean0'}
@@ -41,6 +42,9 @@ def jobs(tier, seed):
     rnd = random.Random(seed)
     for f in FUNCS:
         combos = [(dt, lay) for dt in ('float64', 'float32', 'int32', 'uint8') for lay in ('C', 'F', 'strided', 'readonly')]
+        if f in GENERATORS:
+            # the raster argument is a template whose values are ignored: float templates only (integer templates are rejected or truncated by design)
+            combos = [(dt, lay) for dt in ('float64', 'float32') for lay in ('C', 'F', 'strided', 'readonly')]
         if tier == 'quick':
             keep = [c for c in combos if c in (('float64', 'C'), ('int32', 'C'), ('float32', 'strided'), ('float64', 'readonly'), ('float64', 'F'), ('uint8', 'F'))]
             rest = [c for c in combos if c not in keep]
@@ -49,7 +53,7 @@ def jobs(tier, seed):
         for dt, lay in combos:
             out.append({'name': '%s-%s-%s-numpy' % (f, dt, lay), 'fn': f, 'dtype': dt, 'layout': lay, 'backend': 'numpy'})
         if f in DASK_OK:
-            for dt in ('float64', 'int32'):
+            for dt in (('float64', 'int32') if f not in GENERATORS else ('float64', 'float32')):
                 for chunks in ('one', 'split'):
                     out.append({'name': '%s-%s-dask-%s' % (f, dt, chunks), 'fn': f, 'dtype': dt, 'layout': 'C', 'backend': 'dask', 'chunks': chunks})
     return out
@@ -160,6 +164,10 @@ def _call(ctx, fn, aggs):
         return ctx.call('zonal:trim', a, [3])
     if fn == 'crop':
         return ctx.call('zonal:crop', a, aggs[1], [3, 4, 5])
+    if fn == 'perlin':
+        return ctx.call('perlin:perlin', a)
+    if fn == 'generate_terrain':
+        return ctx.call('terrain:generate_terrain', a)
     raise KeyError(fn)
 
 
